@@ -62,7 +62,15 @@ Example C17_variant_nonvacuous :
 Proof. vm_compute. split; reflexivity. Qed.
 
 (* manual_box<T>: initialized flag and held value equal the reference on [option]; initialize /
-   construct_with on an initialized box and destruct / get on an empty one stop in the assertion hook. *)
+   construct_with on an initialized box and destruct / get on an empty one stop in the assertion hook.
+   Intended semantics of the argument-forwarding operations (manual_box::initialize, optional::emplace and
+   optional(U&&), variant::emplace): the held object is T(args...) -- direct (parenthesised) initialisation,
+   exactly what std::optional<T>::emplace(args...) / std::variant::emplace<T>(args...) hold; NOT T{args...}, which
+   selects an initializer_list constructor where T has one (std::vector<int>(3, 7) = {7,7,7} vs {3,7}).
+   construct_with(f) and expected(T) hold a copy/move of the given object.  The model's element is a number built
+   from one argument, so this clause is outside what the model expresses: it is carried by the harness oracle only
+   (comp/holders/il_part.hpp: std::vector<int> and a user-defined Bag with 1, 2 and 3 constructor arguments, compared
+   with the std:: counterparts). *)
 Theorem C17_manual_box_refines_std : forall (n : nat) (ops : list bop),
   map (abs_cell abs_box) (fst (fst (brun (bvars0 n) ops))) = fst (fst (rbrun (repeat Dead n) ops)) /\
   snd (fst (brun (bvars0 n) ops)) = snd (fst (rbrun (repeat Dead n) ops)).
@@ -84,7 +92,14 @@ Proof. vm_compute. reflexivity. Qed.
    element types, std::tuple_cat / std::apply as oracle): get is indexing, tuple_cat is concatenation,
    copy/move construction keeps order and values, and -- outside the recorded class D17 -- tuple_cat
    treats its arguments as the standard does.  GAP: the tie between this specification and tuple.hpp is
-   the correspondence run only; reference identity is checked at run time only. *)
+   the correspondence run only; reference identity is checked at run time only.
+   Intended semantics of the converting constructors tuple<T...>(const tuple<U...>&) / (tuple<U...>&&), also
+   oracle-only (tuple_conversion_checks in comp/holders/tuple_part.hpp, std::tuple as reference): element i of the
+   result is T_i initialised from (an lvalue / xvalue of) element i OF THE SOURCE OBJECT ITSELF.  Hence
+   values<-values and values<-refs copy (or move) the value and leave what a reference element refers to alone on copy;
+   refs<-values from an lvalue (or a named xvalue) source and refs<-refs ALIAS the source's elements
+   (&get<i>(view) == &get<i>(src)); no element object is constructed or moved by building a view.  tuple.hpp defines
+   no converting assignment. *)
 Theorem C17_tuple_partial :
   (forall vs n, tup_get (tup_make vs) n = option_map fresh (nth_error vs n)) /\
   (forall k args, map val (fst (tup_cat_impl k args)) = concat (map (fun a => map val (snd a)) args)) /\
